@@ -55,6 +55,7 @@ var Policies = []struct {
 }{
 	{"rr", types.RoundRobin}, {"random", types.Random}, {"wrr", types.WeightedRoundRobin}, {"lr", types.LeastActiveRequest},
 	{"lc", types.LeastActiveConnection}, {"reqrr", types.RequestRoundRobin}, {"maglev", types.Maglev}, {"ewma", types.PeakEwma},
+	{"dflt", types.LoadBalancerType("LB_NOT_REGISTERED")}, // NewLoadBalancer falls back to round robin
 }
 
 type hashPolicy struct{ h uint64 }
